@@ -50,6 +50,46 @@ var (
 	classes         = []string{"gold", "silver", "bronze", "-gold"}
 )
 
+// oddPrefixes: first bytes (and one-character keys) a key may have. Every case draws one
+// of them and extends the key alphabets of ALL keyed families, for the spec and for the
+// adjustment alike, with prefix+stem keys and the one-character key: every printable ASCII
+// character below '-' (they sort BEFORE the removal marker), '.', '/', digits, upper and
+// lower case, '_', '~', DEL and UTF-8 multi-byte characters. '-' itself is the removal
+// marker and is covered by the dash keys above; '=' cannot be part of a variable name.
+var oddPrefixes = []string{"x", "$", "+", " ", "!", "\"", "#", "%", "&", "'", "(", ")", "*", ",", ".", "/", "0", "9", "A", "Z", "_", "~", "\x7f", "é", "日"}
+
+// keysets are the key alphabets of one case.
+type keysets struct {
+	odd                                  string
+	ann, env, dev, rl, hp, uni, cdi, seg []string
+}
+
+func mkKeysets(odd string) keysets {
+	ext := func(base []string, stems ...string) []string {
+		out := append([]string(nil), base...)
+		for _, st := range stems {
+			out = append(out, odd+st)
+		}
+		return out
+	}
+	ks := keysets{
+		odd: odd,
+		ann: ext(annKeys, "k1", "k2", ""),
+		env: ext(envKeys, "E1", "E2", ""),
+		rl:  ext(rlimitTypes, "RLIMIT_NOFILE", ""),
+		hp:  ext(pageSizes, "2MB", ""),
+		uni: ext(unifiedKeys, "memory.high", ""),
+		cdi: ext(cdiNames, "vendor.com/gpu=0"),
+		dev: append([]string(nil), devPaths...),
+		seg: []string{"a", "b", "c"},
+	}
+	if odd != "/" { // a path segment cannot contain '/'; "." alone is not a name
+		ks.dev = append(ks.dev, "/dev/"+odd+"d0")
+		ks.seg = append(ks.seg, odd+"d")
+	}
+	return ks
+}
+
 func pick[T any](t *rapid.T, label string, xs ...T) T { return rapid.SampledFrom(xs).Draw(t, label) }
 
 func chance(t *rapid.T, label string, num, den int) bool {
@@ -88,8 +128,7 @@ func variant(t *rapid.T, p string) string {
 
 // genDestPool draws the mount destinations of a case: one chain of nested directories,
 // a few more paths over the same three segment names, sometimes the root.
-func genDestPool(t *rapid.T) []string {
-	segs := []string{"a", "b", "c"}
+func genDestPool(t *rapid.T, segs []string) []string {
 	var pool []string
 	seen := map[string]bool{}
 	add := func(p string) {
@@ -218,7 +257,8 @@ func genOps(t *rapid.T, label string, keys []string, max int, dashKeys ...string
 	return ents
 }
 
-func genSpec(t *rapid.T, pool []string) rspec.Spec {
+func genSpec(t *rapid.T, pool []string, ks keysets) rspec.Spec {
+	annKeys, envKeys, devPaths, rlimitTypes, pageSizes, unifiedKeys := ks.ann, ks.env, ks.dev, ks.rl, ks.hp, ks.uni // this case's alphabets
 	s := rspec.Spec{Version: "1.1.0"}
 	// --- bystanders the adjustment never names
 	s.Hostname = pick(t, "hostname", "", "ctr0")
@@ -384,7 +424,7 @@ func genSpec(t *rapid.T, pool []string) rspec.Spec {
 			for _, k := range subset(t, "unified_keys", unifiedKeys, 1, 4) {
 				r.Unified[k] = pick(t, "uval", "max", "100", "")
 			}
-			if chance(t, "unified_dash", 1, 3) {
+			if chance(t, "unified_dash", 1, 2) {
 				for _, k := range subset(t, "unified_dash_keys", unifiedDashKeys, 1, 2) {
 					r.Unified[k] = pick(t, "uval", "max", "100", "")
 				}
@@ -404,7 +444,8 @@ func genSpec(t *rapid.T, pool []string) rspec.Spec {
 }
 
 // genAdj draws one adjustment; every family is present with probability 1/den.
-func genAdj(t *rapid.T, pool []string, den int) Adj {
+func genAdj(t *rapid.T, pool []string, den int, ks keysets) Adj {
+	annKeys, envKeys, devPaths, rlimitTypes, pageSizes, unifiedKeys, cdiNames := ks.ann, ks.env, ks.dev, ks.rl, ks.hp, ks.uni, ks.cdi // this case's alphabets
 	var a Adj
 	has := func(family string) bool { return chance(t, "has_"+family, 1, den) }
 
@@ -534,18 +575,19 @@ func genAdj(t *rapid.T, pool []string, den int) Adj {
 }
 
 func genC13(t *rapid.T) C13Case {
-	pool := genDestPool(t)
-	c := C13Case{Spec: genSpec(t, pool), Reps: 32}
+	ks := mkKeysets(pick(t, "odd_prefix", oddPrefixes...))
+	pool := genDestPool(t, ks.seg)
+	c := C13Case{Spec: genSpec(t, pool, ks), Reps: 32}
 	// Each family is present with probability 1/2 ("focused" cases: 1/5).
 	den := 2
 	if chance(t, "focused", 1, 4) {
 		den = 5
 	}
-	c.Adj = genAdj(t, pool, den)
+	c.Adj = genAdj(t, pool, den, ks)
 	c.FromSpec = rapid.Bool().Draw(t, "from_spec")
 	// a history: zero to two further (smaller) adjustments on the same generator and spec
 	for i, n := 0, pick(t, "more_steps", 0, 0, 0, 1, 1, 2); i < n; i++ {
-		c.More = append(c.More, genAdj(t, pool, 3))
+		c.More = append(c.More, genAdj(t, pool, 3, ks))
 	}
 	// the CDI injector callback edits the spec like a real one in half of the cases
 	if chance(t, "injector_edits", 1, 2) {
